@@ -5,5 +5,6 @@ From BQ Require Import gate.Matrix.
 From BQ Require Import gate.GateLib.
 From BQ Require Import gate.Composed.
 From BQ Require Import gate.GateModel.
+From BQ Require Import gate.EqHash.
 From Coq Require Extraction ExtrOcamlBasic.
-Extraction "gates_model.ml" model_of print_model fixed_names cm_rx cm_np.
+Extraction "gates_model.ml" model_of print_model fixed_names cm_rx cm_np cc_run cinit.
